@@ -18,6 +18,7 @@ BIN = "c19"
 SEP = " %| "
 # the shell's metacharacter alphabet, plus one plain, one 2-byte and one 4-byte character
 ALPHA = "a '\"$(){}`\\|&;<>#\né\U0001F680"
+ALPHA14 = "a '\"$()`\\|<\né\U0001F680"      # thorough tier: length 6 over these 14
 WD_FAST = 3000       # ms; a call into brush normally takes ~20 µs
 WD_CONFIRM = 6000
 
@@ -377,15 +378,18 @@ def run(ctx):
     rng = ctx.rng
 
     # ---- 1. exhaustive enumeration in the harness: the predicate on brush's spans, every cursor ----
-    maxlen = ctx.size(5, 6)
+    maxlen = 5
     reqs = []
-    for n in range(0, maxlen + 1):
-        tot = len(ALPHA) ** n
+    plan = [(ALPHA, n) for n in range(0, maxlen + 1)]
+    if not ctx.quick:
+        plan.append((ALPHA14, 6))
+    for alpha, n in plan:
+        tot = len(alpha) ** n
         parts = max(1, min(tot // 2000, 1024))
         for i in range(parts):
             lo, hi = tot * i // parts, tot * (i + 1) // parts
             if hi > lo:
-                reqs.append("E %s %d %d %d" % (esc(ALPHA), n, lo, hi))
+                reqs.append("E %s %d %d %d" % (esc(alpha), n, lo, hi))
     resp, hangs = run_requests(reqs)
     failing = {}
     nlines = ncalls = 0
@@ -418,20 +422,21 @@ def run(ctx):
     for n in range(0, small + 1):
         for tup in itertools.product(ALPHA, repeat=n):
             add("exh", "".join(tup))
-    for _ in range(ctx.size(12000, 150000)):
+    known = set(lines)
+    for l in sorted(failing, key=lambda x: (len(x), x)):      # shortest failing inputs first
+        if l not in known:
+            add("exh_rejected", l)
+    for _ in range(ctx.size(12000, 60000)):
         n = rng.randint(small + 1, 8)
         add("rand", "".join(rng.choice(ALPHA) for _ in range(n)))
     gl = []
-    for _ in range(ctx.size(8000, 120000)):
+    for _ in range(ctx.size(8000, 50000)):
         g = gen_line(rng)
         gl.append(g)
         add("grammar", g)
-    for _ in range(ctx.size(8000, 120000)):
+    for _ in range(ctx.size(8000, 50000)):
         add("mutated", mutate(rng, rng.choice(gl)))
     known = set(lines)
-    for l in sorted(failing):
-        if l not in known:
-            add("exh_rejected", l)
     # lines that hang are tied separately (they would stall the batch): confirm, then classify
     ties = tie_lines(ctx, lines)
     suspected = sorted(set(hang_lines) | {t.line for t in ties if t.hresp.startswith("HANG")})
@@ -481,7 +486,7 @@ def run(ctx):
         if not t.hang:
             c = max(t.brush)
             ctx.sample({"line": t.line, "cursor": c, "brush": t.brush[c], "model": t.model.get(c, ("?",))[0], "wf": t.wf})
-    ctx.cov["rule"] = ("(1) every line of length 0..%d over the %d-symbol alphabet %r, every cursor on a char boundary: the tiling "
+    ctx.cov["rule"] = ("(1) every line of length 0..%d over the %d-symbol alphabet %r (thorough: also length 6 over 14 of them), every cursor on a char boundary: the tiling "
                        "predicate evaluated on brush's spans inside the harness; (2) the tie (brush spans == Lean model spans on the "
                        "tree rebuilt from tokenize_str_with_options / word::parse, every cursor, predicate re-evaluated in python): "
                        "corpus, all lines of length <= %d, seeded random lines to length 8, grammar-generated lines (quotes, "
